@@ -131,7 +131,7 @@ fn chk_encoders(g: &mut Gen) -> Result<(), String> {
     let poison = g.u8();
     let extra = g.below(8);
     let which = g.below(27);
-    let mut buf = vec![poison; 300 + extra];
+    let mut buf = vec![poison; 1100 + extra];
     let eid_cell = g.u8();
     c.get_response().set_eid(eid_cell);
     // expected: (message type byte, body after the type byte) or None = must be refused with the buffer untouched
@@ -152,7 +152,7 @@ fn chk_encoders(g: &mut Gen) -> Result<(), String> {
         6 => { let v = g.u8(); expect = Some((0, vec![0x80, 0x07, v])); quiet(|| rq.resolve_endpoint_id(dst, v, &mut buf)) }
         7 => { let o = g.below(3); let (oe, ob) = match o { 0 => (AllocateEndpointIDOperation::AllocateEIDs, 0), 1 => (AllocateEndpointIDOperation::ForceAllocation, 1), _ => (AllocateEndpointIDOperation::GetAllocationInformation, 2) };
                let (a, b) = (g.u8(), g.u8()); expect = Some((0, vec![0x80, 0x08, ob, a, b])); quiet(|| rq.allocate_endpoint_ids(dst, oe, a, b, &mut buf)) }
-        8 => { let n = g.below(10); let raws: Vec<[u8; 4]> = (0..n).map(|_| [g.u8(), g.u8(), g.u8(), g.u8()]).collect();
+        8 => { let n = if g.below(6) == 0 { 8 + g.below(130) } else { g.below(10) }; let raws: Vec<[u8; 4]> = (0..n).map(|_| [g.u8(), g.u8(), g.u8(), g.u8()]).collect();
                let ents: Vec<_> = raws.iter().map(|r| SMBusRoutingInformationUpdateEntry::new_from_buf(*r)).collect();
                let mut b = vec![0x80, 0x09, n as u8]; for r in &raws { b.extend_from_slice(r); }
                expect = if n >= 8 { None } else { Some((0, b)) };
@@ -170,7 +170,7 @@ fn chk_encoders(g: &mut Gen) -> Result<(), String> {
                 expect = Some((0, b)); let ua: [u8; 16] = u.clone().try_into().unwrap(); quiet(|| rq.resolve_uuid(dst, &ua, h, &mut buf)) }
         16 => { expect = Some((0, vec![0x80, 0x11])); quiet(|| rq.query_rate_limit(dst, &mut buf)) }
         17 | 18 => { let fmt = if g.below(5) == 0 { g.u8() } else { g.u8() & 1 }; let data = u32::from_be_bytes([g.u8(), g.u8(), g.u8(), g.u8()]);
-                let n = if g.below(4) == 0 { 240 + g.below(30) } else { g.below(40) }; let msg = g.bytes(n);
+                let n = match g.below(8) { 0 | 1 => 240 + g.below(30), 2 => 250 + g.below(600), _ => g.below(40) }; let msg = g.bytes(n);
                 let f = VendorIDFormat { format: fmt, data, numeric_value: g.u8() as u16 };
                 expect = match fmt { 0 => { let mut b = vec![(data >> 8) as u8, data as u8]; b.extend_from_slice(&msg); Some((0x7E, b)) }
                                      1 => { let mut b = data.to_be_bytes().to_vec(); b.extend_from_slice(&msg); Some((0x7F, b)) }
@@ -196,7 +196,7 @@ fn chk_encoders(g: &mut Gen) -> Result<(), String> {
         22 => { let cc = g.u8() % 6; let u = g.bytes(16); let mut b = vec![0x00, 0x03, cc]; b.extend_from_slice(&u); expect = Some((0, b));
                 let ua: [u8; 16] = u.try_into().unwrap(); quiet(|| rs.get_endpoint_uuid(cc_of(cc), dst, &ua, &mut buf)) }
         23 => { let cc = g.u8() % 6; expect = Some((0, vec![0x00, 0x04, cc, 1, 0xF1, 0xF3, 0xF1, 0x00])); quiet(|| rs.get_mctp_version_support(cc_of(cc), dst, &mut buf)) }
-        24 => { let cc = g.u8() % 6; let n = g.below(34); let t = g.bytes(n); let mut b = vec![0x00, 0x05, cc, n as u8]; b.extend_from_slice(&t);
+        24 => { let cc = g.u8() % 6; let n = if g.below(5) == 0 { 31 + g.below(700) } else { g.below(34) }; let t = g.bytes(n); let mut b = vec![0x00, 0x05, cc, n as u8]; b.extend_from_slice(&t);
                 expect = if n > 30 { None } else { Some((0, b)) }; quiet(|| rs.get_message_type_suport(cc_of(cc), dst, &t, &mut buf)) }
         _ => { let cc = g.u8() % 6; let sel = g.u8(); let n = g.below(8); let v = g.bytes(n); let mut b = vec![0x00, 0x06, cc, sel]; b.extend_from_slice(&v);
                 expect = Some((0, b)); quiet(|| rs.get_vendor_defined_message_support(cc_of(cc), dst, sel, &v, &mut buf)) }
@@ -375,6 +375,19 @@ fn chk_burst(g: &mut Gen) -> Result<(), String> {
     }
     if p == p0 { return Ok(()); }
     if decode_known_panic(&p) || process_known_panic(&p, vids.len()) { return Ok(()); }
+    // the corrupted bytes arrive in the same receive buffer in which the valid packet was processed before
+    // ("every context state": a receiver reuses its buffer), half of the time
+    let reuse = g.bool();
+    let mut rxbuf = p0.clone();
+    if reuse && !decode_known_panic(&p0) && !process_known_panic(&p0, vids.len()) {
+        let mut rb0 = vec![0u8; 64];
+        let _ = quiet(|| c.process_packet(&rxbuf, &mut rb0).map(|x| x.1));
+        let _ = quiet(|| c.decode_packet(&rxbuf).map(|x| x.0 as u8));
+        c.get_request().set_eid(e0);
+        c.get_response().set_eid(e0);
+    }
+    rxbuf.copy_from_slice(&p);
+    let p = &rxbuf[..];
     let d = quiet(|| c.decode_packet(&p).map(|(t, pl)| (t as u8, pl.to_vec()))).map_err(|m| format!("decode_packet({}) panicked: {}", hex(&p), m))?;
     if d.is_ok() { return Err(format!("corrupted packet {} (from {}) was accepted by decode_packet", hex(&p), hex(&p0))); }
     let poison = g.u8();
@@ -511,7 +524,8 @@ pub fn checks_for(pid: &str) -> Vec<(&'static str, Chk)> {
     match pid {
         "C01" => vec![enc, rcv],
         "C02" => vec![bur, rcv],
-        "C03" | "C04" | "C05" | "C06" | "C07" | "C08" | "C16" => vec![enc],
+        "C03" | "C04" | "C05" => vec![enc, rcv],
+        "C06" | "C07" | "C08" | "C16" => vec![enc],
         "C09" | "C10" | "C11" | "C17" => vec![rcv, enc],
         "C12" => vec![rcv, his],
         "C13" => vec![his, rcv],
